@@ -157,6 +157,8 @@ int main(int argc, char** argv) {
     for (t = 0; t < T + 1; t++) { child[t] = (fxInstance*)parent.common.newChild((wasmModuleInstance*)&parent); evs[t] = (Ev*)calloc(MAXEV, sizeof(Ev)); }
     /* addresses: some collide in the 1024-bucket map (A, A+1024*4k), others do not; all 8-byte aligned */
     for (i = 0; i < naddr; i++) addrs[i] = 4096u + (unsigned)((i % 2) ? 1024u * 4u * (unsigned)i : 8u * (unsigned)i) + ((seed >> 3) % 4) * 2048u * 0u;
+    /* depending on the seed some of the addresses lie in the second 64 KiB page (the memory has two), next to 2^16 and far into it */
+    if (seed % 3 != 0) for (i = (int)(seed % 2); i < naddr; i += 2) addrs[i] = 65536u + (unsigned)(i * 8) + (unsigned)((seed >> 2) % 8) * 4096u;
     threadsLeft = T;
     for (t = 0; t < T; t++) { args[t].t = t; args[t].role = t < W ? 0 : 1; args[t].scenario = scenario; args[t].naddr = naddr; args[t].seed = seed; args[t].addrs = addrs;
         args[t].target = 3 + (unsigned)(seed % 6); args[t].iters = 12 + (int)(seed % 20); pthread_create(&th[t], NULL, threadMain, &args[t]); }
